@@ -1,7 +1,7 @@
 (* C07: the enumerations of the exact solvers list every assignment of their search
    space exactly once; the lowest row of a complete enumeration is a global optimum. *)
 From Coq Require Import List ZArith QArith Qcanon Bool Arith Lia Permutation FinFun.
-From Dimod Require Import Base.Util Model.Poly Model.Comb Model.Solve Proofs.CombGray.
+From Dimod Require Import Base.Util Model.Poly Model.Comb Gen.Gen_ExactHoc Model.Solve Proofs.CombGray.
 Import ListNotations.
 Local Open Scope nat_scope.
 
@@ -117,10 +117,25 @@ Proof.
   intros a b E. lia.
 Qed.
 
+Lemma grange_In a b z : In z (grange a b) <-> (a <= z < b)%Z.
+Proof.
+  unfold grange. rewrite in_map_iff. split.
+  - intros [k [<- Hk]]. apply in_seq in Hk. lia.
+  - intros H. exists (Z.to_nat (z - a)). split; [lia|]. apply in_seq. lia.
+Qed.
+
+Lemma grange_NoDup a b : NoDup (grange a b).
+Proof.
+  unfold grange. apply Injective_map_NoDup; [|apply seq_NoDup]. intros x y E. lia.
+Qed.
+
 Lemma dom_values_NoDup d : NoDup (dom_values d).
 Proof.
-  destruct d; cbn [dom_values]; [| |apply zrange_NoDup|apply zrange_NoDup];
-    (constructor; [cbn [In]; intros [E|[]]; discriminate E|constructor; [intros []|constructor]]).
+  destruct d; cbn [dom_values].
+  - apply grange_NoDup.
+  - unfold gen_spin_values. constructor; [cbn [In]; intros [E|[]]; discriminate E|constructor; [intros []|constructor]].
+  - apply zrange_NoDup.
+  - apply grange_NoDup.
 Qed.
 
 (* the specification of an INTEGER variable's domain: the integers between the bounds *)
@@ -137,7 +152,7 @@ Definition in_vdom (d : vdom) (z : Z) : Prop :=
 
 Lemma qfloor_spec q z : (z <= qfloor q)%Z <-> (Q2Qc (inject_Z z) <= q)%Qc.
 Proof.
-  unfold Qcle, qfloor. cbn [this Q2Qc]. rewrite Qred_correct. unfold Qle. cbn [Qnum Qden inject_Z].
+  unfold Qcle, qfloor, gfloor. cbn [this Q2Qc]. rewrite Qred_correct. unfold Qle. cbn [Qnum Qden inject_Z].
   destruct q as [[n d] Hc]. cbn [this Qnum Qden].
   pose proof (Z.mul_div_le n (Zpos d) (eq_refl : (0 < Zpos d)%Z)) as H1. split; intros H.
   - nia.
@@ -146,7 +161,7 @@ Qed.
 
 Lemma qceil_spec q z : (qceil q <= z)%Z <-> (q <= Q2Qc (inject_Z z))%Qc.
 Proof.
-  unfold Qcle, qceil. cbn [this Q2Qc]. rewrite Qred_correct. unfold Qle. cbn [Qnum Qden inject_Z].
+  unfold Qcle, qceil, gceil. cbn [this Q2Qc]. rewrite Qred_correct. unfold Qle. cbn [Qnum Qden inject_Z].
   destruct q as [[n d] Hc]. cbn [this Qnum Qden].
   pose proof (Z.mul_div_le (- n) (Zpos d) (eq_refl : (0 < Zpos d)%Z)) as H1. split; intros H.
   - nia.
@@ -158,14 +173,15 @@ Qed.
 Theorem cqm_integer_domain_within_bounds lb ub z :
   In z (dom_values (DIntQ lb ub)) <-> within_bounds lb ub z.
 Proof.
-  cbn [dom_values]. rewrite zrange_In. unfold within_bounds.
-  rewrite <- qfloor_spec, <- qceil_spec. reflexivity.
+  cbn [dom_values]. unfold gen_integer_values. rewrite grange_In. unfold within_bounds.
+  rewrite <- qfloor_spec, <- qceil_spec. unfold qfloor, qceil. lia.
 Qed.
 
 Lemma dom_values_In d z : In z (dom_values d) <-> in_vdom d z.
 Proof.
-  destruct d; [| |apply zrange_In|apply cqm_integer_domain_within_bounds];
-    cbn [dom_values in_vdom In]; intuition congruence.
+  destruct d; [| |apply zrange_In|apply cqm_integer_domain_within_bounds]; cbn [dom_values in_vdom].
+  - unfold gen_binary_values. rewrite grange_In. lia.
+  - unfold gen_spin_values. cbn [In]. intuition congruence.
 Qed.
 
 (* ------------------------------------------------------------------ *)
@@ -175,19 +191,19 @@ Theorem dqm_cases_each_once (ncases : list nat) :
   NoDup (all_cases_dqm ncases) /\
   (forall row, In row (all_cases_dqm ncases) <->
                Forall2 (fun x n => (0 <= x < Z.of_nat n)%Z) row ncases) /\
-  Permutation (all_cases_dqm ncases) (product (map (fun n => zrange 0 (Z.of_nat n - 1)) ncases)).
+  Permutation (all_cases_dqm ncases) (product (map gen_dqm_values ncases)).
 Proof.
-  assert (Hnd : Forall (@NoDup Z) (map (fun n => zrange 0 (Z.of_nat n - 1)) ncases)).
-  { apply Forall_forall. intros d Hd. apply in_map_iff in Hd. destruct Hd as [n [<- _]]. apply zrange_NoDup. }
+  assert (Hnd : Forall (@NoDup Z) (map gen_dqm_values ncases)).
+  { apply Forall_forall. intros d Hd. apply in_map_iff in Hd. destruct Hd as [n [<- _]]. apply grange_NoDup. }
   unfold all_cases_dqm. split; [apply mesh_NoDup; exact Hnd|]. split; [|apply mesh_perm; exact Hnd].
   intros row. rewrite mesh_In. split.
-  - intros H. remember (map (fun n => zrange 0 (Z.of_nat n - 1)) ncases) as ds eqn:E.
+  - intros H. remember (map gen_dqm_values ncases) as ds eqn:E.
     revert ncases E Hnd. induction H as [|x d row ds Hx H IH]; intros ncases E Hnd.
     + destruct ncases; [constructor|discriminate E].
     + destruct ncases as [|n ncases]; [discriminate E|]. cbn [map] in E. inversion E; subst.
-      inversion Hnd; subst. constructor; [apply zrange_In in Hx; lia|apply IH; [reflexivity|assumption]].
+      inversion Hnd; subst. constructor; [apply grange_In in Hx; lia|apply IH; [reflexivity|assumption]].
   - intros H. induction H as [|x n row ncases Hx H IH]; cbn [map]; [constructor|].
-    inversion Hnd; subst. constructor; [apply zrange_In; lia|apply IH; assumption].
+    inversion Hnd; subst. constructor; [apply grange_In; lia|apply IH; assumption].
 Qed.
 
 (* ------------------------------------------------------------------ *)
@@ -450,4 +466,98 @@ Proof.
     split; [apply cqm_cases_In; exact Hin|exact Hf].
   - intros row Hr Hf. apply (argmin_le f (filter feas (all_cases_cqm sizes doms))); [exact Hb|].
     apply filter_In. split; [apply cqm_cases_In; exact Hr|exact Hf].
+Qed.
+
+(* ------------------------------------------------------------------ *)
+(* _all_cases_cqm as written (index product, zeros-with-a-one concatenation, the c1-empty
+   branch, the early break and the final fallback) is the functional enumeration *)
+Local Open Scope nat_scope.
+
+Lemma fold_left_app_concat {A B} (f : B -> list A) xs : forall acc,
+  fold_left (fun l x => l ++ f x) xs acc = acc ++ concat (map f xs).
+Proof.
+  induction xs as [|x xs IH]; intros acc; cbn [fold_left map concat]; [symmetry; apply app_nil_r|].
+  rewrite IH, app_assoc. reflexivity.
+Qed.
+
+Definition onehot_list (sizes indexes : list nat) : list (list Z) :=
+  map (fun di => onehot (fst di) (snd di)) (combine sizes indexes).
+
+Lemma onehot_concat_eq sizes indexes : onehot_concat sizes indexes = concat (onehot_list sizes indexes).
+Proof. unfold onehot_concat, onehot_list. rewrite fold_left_app_concat. reflexivity. Qed.
+
+Lemma product_seq_onehots sizes :
+  map (onehot_list sizes) (product (map (fun d => seq 0 d) sizes)) = product (map onehots sizes).
+Proof.
+  induction sizes as [|d r IH]; [reflexivity|]. cbn [map product].
+  rewrite map_flat_map. change (onehots d) with (map (onehot d) (seq 0 d)). rewrite flat_map_map. apply flat_map_ext. intros x.
+  rewrite <- IH, !map_map. apply map_ext. intros t. reflexivity.
+Qed.
+
+Lemma onehot_blocks_code sizes :
+  onehot_blocks sizes = map (onehot_concat sizes) (product (map (fun d => seq 0 d) sizes)).
+Proof.
+  unfold onehot_blocks. rewrite <- product_seq_onehots, map_map. apply map_ext. intros idx.
+  symmetry. apply onehot_concat_eq.
+Qed.
+
+Lemma product_nonempty {A} (doms : list (list A)) : Forall (fun d => d <> []) doms -> product doms <> [].
+Proof.
+  induction 1 as [|d r Hd Hr IH]; cbn [product]; [discriminate|].
+  destruct d as [|x d]; [congruence|]. cbn [flat_map]. destruct (product r) as [|y ys]; [congruence|].
+  cbn [map app]. discriminate.
+Qed.
+
+Lemma cqm_combinations_nonnil sizes c1 : sizes <> [] ->
+  cqm_combinations sizes c1 =
+  flat_map (fun indexes => let l := onehot_concat sizes indexes in
+                           match c1 with [] => [l] | _ => map (fun row => l ++ row) c1 end)
+           (product (map (fun d => seq 0 d) sizes)).
+Proof. destruct sizes; [congruence|reflexivity]. Qed.
+
+Lemma all_cases_cqm_code_discrete sizes doms :
+  sizes <> [] -> Forall (fun d => 0 < d) sizes ->
+  (doms <> [] -> mesh (map dom_values doms) <> []) ->
+  all_cases_cqm_code sizes doms = all_cases_cqm sizes doms.
+Proof.
+  intros Hs Hpos Hmesh. unfold all_cases_cqm_code.
+  assert (Hprod : product (map (fun d => seq 0 d) sizes) <> []).
+  { apply product_nonempty. apply Forall_forall. intros l Hl. apply in_map_iff in Hl.
+    destruct Hl as [d [<- Hd]]. rewrite Forall_forall in Hpos. specialize (Hpos d Hd).
+    destruct d; [lia|cbn [seq]; discriminate]. }
+  set (c1 := match doms with [] => [] | _ => mesh (map dom_values doms) end).
+  assert (Hcomb : cqm_combinations sizes c1 = all_cases_cqm sizes doms).
+  { rewrite cqm_combinations_nonnil by exact Hs. unfold all_cases_cqm.
+    rewrite onehot_blocks_code, flat_map_map. apply flat_map_ext. intros idx. unfold c1.
+    destruct doms as [|dm doms'].
+    - cbn [map]. unfold mesh. cbn [swap2 rev product map]. rewrite app_nil_r. reflexivity.
+    - destruct (mesh (map dom_values (dm :: doms'))) as [|row rows] eqn:Em; [|reflexivity].
+      exfalso. apply Hmesh; [discriminate|reflexivity]. }
+  destruct (cqm_combinations sizes c1) as [|x xs] eqn:Ea; [|exact Hcomb].
+  exfalso. rewrite cqm_combinations_nonnil in Ea by exact Hs.
+  destruct (product (map (fun d => seq 0 d) sizes)) as [|idx idxs]; [congruence|].
+  cbn [flat_map] in Ea. apply app_eq_nil in Ea. destruct Ea as [Ea _]. unfold c1 in Ea.
+  destruct doms as [|dm doms']; [discriminate Ea|].
+  destruct (mesh (map dom_values (dm :: doms'))) as [|row rows] eqn:Em; [apply Hmesh; [discriminate|reflexivity]|].
+  discriminate Ea.
+Qed.
+
+Theorem all_cases_cqm_code_eq sizes doms :
+  (sizes <> [] \/ doms <> []) -> Forall (fun d => 0 < d) sizes ->
+  (doms <> [] -> mesh (map dom_values doms) <> []) ->
+  all_cases_cqm_code sizes doms = all_cases_cqm sizes doms.
+Proof.
+  intros Hne Hpos Hmesh. destruct sizes as [|d0 r0].
+  - unfold all_cases_cqm_code. cbn [cqm_combinations]. rewrite all_cases_cqm_nil.
+    destruct doms as [|dm doms']; [destruct Hne; congruence|reflexivity].
+  - apply all_cases_cqm_code_discrete; [discriminate|exact Hpos|exact Hmesh].
+Qed.
+
+(* every domain of the generated rules is non-empty as soon as an integer lies within the bounds
+   (dimod refuses INTEGER variables without one), so the side condition on c1 holds *)
+Lemma mesh_nonempty {A} (doms : list (list A)) : Forall (fun d => d <> []) doms -> mesh doms <> [].
+Proof.
+  intros H. unfold mesh. assert (Hp : product (rev (swap2 doms)) <> []).
+  { apply product_nonempty. apply Forall_rev. apply Forall_swap2. exact H. }
+  destruct (product (rev (swap2 doms))); [congruence|discriminate].
 Qed.
